@@ -306,6 +306,8 @@ func writeWitness(wt Witness) string {
 // of the failing call site / input class (used for known findings), detail a human
 // description, witness any JSON-serialisable description of the case.
 func (w *W) Violation(i int, key, detail string, witness any) {
+	// keys are matched token-wise against known_findings.txt: no whitespace inside a key
+	key = strings.Join(strings.Fields(key), "_")
 	w.mu.Lock()
 	defer w.mu.Unlock()
 	if idx, ok := w.vioByKey[key]; ok {
